@@ -161,7 +161,7 @@ def validate(ctx: Ctx, traces: list[dict], name: str) -> None:
                           {"desc": t["desc"], "inputs": t["inputs"], "script": t["script"], "storage": t["storage"],
                            "entry": t["entry"], "recorded": [(e['e'], e['f']) for e in t["ev"]]})
     rej = validate_traces(ctx, "TraceMapRun", traces, name, invariants=["InvTypeOK", "InvDoneStored"],
-                          strip=("storage", "entry", "followed", "stuck", "script"), chunk=200)
+                          strip=("storage", "entry", "followed", "stuck", "script", "case"), chunk=200)
     for i, reached in rej.items():
         t = traces[i]
         e = t["ev"][reached - 1]
@@ -169,7 +169,7 @@ def validate(ctx: Ctx, traces: list[dict], name: str) -> None:
                        "entry": t["entry"]},
                       f"scheduled map run not explained by MapRun at event {reached}: {e['e']} {e.get('f','')} {e.get('cls','')} {e.get('msg','')[:100]}",
                       {"desc": t["desc"], "inputs": t["inputs"], "script": t["script"], "storage": t["storage"],
-                       "entry": t["entry"], "rejected_at": reached})
+                       "entry": t["entry"], "rejected_at": reached, "case": t.get("case")})
 
 
 def run(ctx: Ctx) -> None:
@@ -231,6 +231,18 @@ def run(ctx: Ctx) -> None:
     for k, sn in enumerate([s for s in ("chain", "gen", "partial") if s in scens]):
         for kind in ("process", "thread"):
             pools.append(run_pool(scens[sn], "dict", kind, ctx.seed * 1000 + 500 + k, per_output=False, folder=False))
+    # partial runs (fixed_indices) followed by a full run with cleanup=False, all through real pools, on every storage: the
+    # workers of a later run reopen / extend the partly filled arrays an earlier run left behind (histories of MC_MapFixed)
+    from . import c06
+    scen6, cases6, _ = c06.export(ctx, "consumer")
+    multi = [c for c in cases6 if c["kind"] == "parts" and len(c["parts"]) >= 2]
+    rng.shuffle(multi)
+    for k, c in enumerate(multi[: (2 if quick else 12)]):
+        for kind in ("thread", "process"):
+            for st in STORAGES:
+                h = c06.run_history(scen6, c, st, pool=kind)
+                pools.append({"desc": h["desc"], "inputs": h["inputs"], "ev": h["ev"], "storage": st, "entry": kind + "-parts",
+                              "case": c, "followed": True, "stuck": "", "script": []})
     for t in pools:
         ctx.case({"pool": t["entry"], "st": t["storage"], "d": t["desc"], "order": [(e["e"], e["f"]) for e in t["ev"]]})
     validate(ctx, pools, "pools")
@@ -262,7 +274,15 @@ def replay(rep: dict) -> int:
     w = rep["witness"]
     scen = {"desc": w["desc"], "inputs": w["inputs"]}
     st = w["storage"]
-    t = run_scripted(scen, w["script"], st, w["entry"] if w["entry"] in ("map", "async") else "map")
+    if w["entry"].endswith("-parts"):
+        from . import c06
+        h = c06.run_history(scen, w["case"], st, pool=w["entry"].split("-")[0])
+        t = {"desc": h["desc"], "inputs": h["inputs"], "ev": h["ev"], "storage": st, "entry": w["entry"], "case": w["case"],
+             "followed": True, "stuck": "", "script": []}
+    elif w["entry"] in ("thread", "process"):
+        t = run_pool(scen, st, w["entry"], 0, per_output=False)
+    else:
+        t = run_scripted(scen, w["script"], st, w["entry"])
     print("followed:", t["followed"], t["stuck"])
     ctx = Ctx(PROPERTY, "quick", 0)
     ctx.findings = []
